@@ -84,8 +84,8 @@ def op_kind(op):
     return k
 
 
-def initial_spec(k, cfg, stats, generator=None, index=0):
-    """Draw topologies until one builds from scratch (envelope W4); returns (spec, attempt)."""
+def initial_spec(k, cfg, stats, generator=None, index=0, salt="probe"):
+    """Draw topologies until one builds from scratch (envelope W4) with the ids of the run; returns (spec, attempt)."""
     last = None
     for attempt in range(MAX_BUILD_ATTEMPTS):
         kk = k.sub("attempt", attempt)
@@ -96,7 +96,7 @@ def initial_spec(k, cfg, stats, generator=None, index=0):
             stats["short_storage_relaxed"] = 1
         sp = generator(kk, cfg, index) if generator is not None else gen.gen_spec(kk, cfg)
         try:
-            S.build_world(sp, "probe")
+            S.build_world(sp, salt)
             return sp, attempt
         except Exception as e:  # the library refuses (or crashes on) this description: outside the envelope
             stats["initial_build_refused"] = stats.get("initial_build_refused", 0) + 1
@@ -132,8 +132,10 @@ def run(prop, monitor_cls, seed=0, index=0, n_ops=10, ops=None, header=None, dig
             k = Keyed(seed, prop, index)
             cfg = gen.swarm_config(k)
             cfg.update(opts.get("cfg_override", {}))
-            sp, attempt = initial_spec(k, cfg, res.stats, getattr(monitor_cls, "spec_generator", None), index)
             salt = f"{seed}:{prop}:{index}"
+            # (probed with the very ids of the run: whether a description builds must not depend on them, but it did -
+            # D31 - and a probe under other ids then let an unbuildable world through as a harness error)
+            sp, attempt = initial_spec(k, cfg, res.stats, getattr(monitor_cls, "spec_generator", None), index, salt)
             header = {"property": prop, "seed": seed, "index": index, "salt": salt, "cfg": cfg, "spec": sp,
                       "attempt": attempt}
         else:
